@@ -222,6 +222,11 @@ def gen_class_with_method(rng, obj0, module='m'):
   mop = {'op': 'register', 'name': mname, 'nameValid': True, 'module': module, 'moduleValid': True, 'sig': msig,
          'allow': [], 'deny': [], 'listTypesOk': True, 'obj': obj0, 'method': False, 'methods': [],
          '_skip_impl': True, '_selector': f'{module}.{cname}.{mname}', '_kind': 'fn', '_api': 'method'}
+  r = rng.random()
+  if r < 0.25:     # the method's own allow/deny list stays in force after it moved under its class
+    mop['deny'] = [rng.choice(['x', 'y'])]
+  elif r < 0.4:
+    mop['allow'] = [rng.choice(['x', 'y'])]
   cop = {'op': 'register', 'name': cname, 'nameValid': True, 'module': module, 'moduleValid': True,
          'sig': {'pos': [['self', None]], 'kwonly': [], 'varargs': False, 'varkw': False},
          'allow': [], 'deny': [], 'listTypesOk': True, 'obj': obj0 + 1, 'method': False,
